@@ -197,7 +197,7 @@ def check(run):
     if run.tier == 'quick':
         with run.stage('e1'):
             recs = mc_edge(run, 'e1', N=2, P=1, WD=2, shapes=['Reg', 'RegE', 'RegR', 'Not'], rvs=[0, 3], gated=False,
-                           invecs=[[0], [1], [2]], cycles=2)
+                           invecs=[[0], [1], [2]], cycles=2, mod=3)
             replay_records(run, recs, 1, 2, 'mc-edge-2')
         with run.stage('e2'):
             recs = mc_edge(run, 'e2', N=3, P=1, WD=1, shapes=['Reg', 'And2'], rvs=[0, 1], gated=False,
@@ -205,25 +205,25 @@ def check(run):
             replay_records(run, recs, 1, 1, 'mc-edge-3')
         with run.stage('e3'):
             recs = mc_edge(run, 'e3', N=2, P=1, WD=1, shapes=['Mem', 'Reg', 'Seq'], rvs=[0], gated=False,
-                           invecs=[[0], [1]], cycles=2, maxn=2, mod=3)
+                           invecs=[[0], [1]], cycles=2, maxn=2, mod=8)
             replay_records(run, recs, 1, 1, 'mc-edge-mem')
         with run.stage('e4'):
             recs = mc_edge(run, 'e4', N=2, P=1, WD=1, shapes=['Reg', 'RegE'], rvs=[0, 1], gated=True,
-                           invecs=[[0], [1]], cycles=2, maxn=2, mod=2)
+                           invecs=[[0], [1]], cycles=2, maxn=2, mod=6)
             replay_records(run, recs, 1, 1, 'mc-edge-2dom')
         with run.stage('b'):
             part_b(run, 400, 12)
     else:
         recs = mc_edge(run, 'e1', N=2, P=1, WD=2, shapes=['Reg', 'RegE', 'RegR', 'RegER', 'Not', 'And2'], rvs=[0, 3],
-                       gated=False, invecs=[[0], [1], [2], [3]], cycles=3, mod=4)
+                       gated=False, invecs=[[0], [1], [2], [3]], cycles=3, mod=8)
         replay_records(run, recs, 1, 2, 'mc-edge-2')
         recs = mc_edge(run, 'e2', N=3, P=1, WD=1, shapes=['Reg', 'RegE', 'And2'], rvs=[0, 1], gated=False,
-                       invecs=[[0], [1]], cycles=2, mod=8)
+                       invecs=[[0], [1]], cycles=2, mod=24)
         replay_records(run, recs, 1, 1, 'mc-edge-3')
         recs = mc_edge(run, 'e3', N=2, P=2, WD=1, shapes=['Mem', 'Reg', 'RegE', 'Seq'], rvs=[0, 1], gated=False,
-                       invecs=[[0, 0], [1, 0], [0, 1], [1, 1]], cycles=3, maxn=2, mod=16)
+                       invecs=[[0, 0], [1, 0], [0, 1], [1, 1]], cycles=3, maxn=2, mod=32)
         replay_records(run, recs, 2, 1, 'mc-edge-mem')
-        recs = mc_edge(run, 'e4', N=3, P=1, WD=1, shapes=['Reg', 'RegE', 'Not'], rvs=[0, 1], gated=True,
+        recs = mc_edge(run, 'e4', N=3, P=1, WD=1, shapes=['Reg', 'Not'], rvs=[0, 1], gated=True,
                        invecs=[[0], [1]], cycles=2, maxn=2, mod=16)
         replay_records(run, recs, 1, 1, 'mc-edge-2dom')
         part_b(run, 6000, 30)
